@@ -11,6 +11,7 @@ import (
 	"os"
 	"strconv"
 	"strings"
+	"sync"
 
 	"github.com/shopspring/decimal"
 )
@@ -36,6 +37,7 @@ type Outcome struct {
 }
 
 type state struct {
+	ns        *nsched
 	r         *Replay
 	count     map[string]int
 	out       *Outcome
@@ -49,6 +51,7 @@ type assumeFailed struct{}
 // Run executes harness f natively under replay r.
 func Run(r *Replay, f func()) (out *Outcome) {
 	cur = &state{r: r, count: map[string]int{}, out: &Outcome{}}
+	cur.ns = &nsched{threads: []*nthread{{id: 0, wake: make(chan struct{}, 1)}}}
 	out = cur.out
 	defer func() {
 		if p := recover(); p != nil {
@@ -248,7 +251,105 @@ func IteU64(c bool, a, b uint64) uint64 {
 }
 func Concrete(x int) int      { return x }
 func IsSym(v interface{}) bool { return false }
-func Yield(site string)       {}
+// ---- schedule replay: goroutines started with vp.Go run one at a time; at every
+// scheduling point (vp.Go, vp.Yield / hook, goroutine exit, vp.Wait) the recorded
+// schedule names the goroutine that runs next.
+
+type nthread struct {
+	id   int
+	wake chan struct{}
+	done bool
+}
+
+type nsched struct {
+	threads []*nthread
+	cur     int
+	pos     int
+	free    sync.WaitGroup // used when no schedule is recorded (free-running)
+}
+
+func (n *nsched) active() bool { return len(cur.r.Sched) > 0 }
+
+func (n *nsched) next() int {
+	if n.pos < len(cur.r.Sched) {
+		v := cur.r.Sched[n.pos]
+		n.pos++
+		if v >= 0 && v < len(n.threads) && !n.threads[v].done {
+			return v
+		}
+	}
+	for _, t := range n.threads {
+		if !t.done {
+			return t.id
+		}
+	}
+	return 0
+}
+
+// switchFrom hands the baton to thread nx and parks the caller (unless exiting).
+func (n *nsched) switchFrom(me *nthread, nx int, exiting bool) {
+	if nx == me.id && !exiting {
+		return
+	}
+	n.cur = nx
+	n.threads[nx].wake <- struct{}{}
+	if !exiting {
+		<-me.wake
+	}
+}
+
+// Go starts f as a scheduled goroutine.
+func Go(f func()) {
+	n := cur.ns
+	if !n.active() {
+		n.free.Add(1)
+		go func() { defer n.free.Done(); f() }()
+		return
+	}
+	t := &nthread{id: len(n.threads), wake: make(chan struct{}, 1)}
+	n.threads = append(n.threads, t)
+	go func() {
+		<-t.wake
+		f()
+		t.done = true
+		n.switchFrom(t, n.next(), true)
+	}()
+	Yield("go")
+}
+
+// Yield is a scheduling point (also installed as the repository's verif hook).
+func Yield(site string) {
+	if cur == nil || cur.ns == nil || !cur.ns.active() || len(cur.ns.threads) <= 1 {
+		return
+	}
+	n := cur.ns
+	me := n.threads[n.cur]
+	n.switchFrom(me, n.next(), false)
+}
+
+// Wait blocks the main goroutine until every goroutine started with Go has finished.
+func Wait() {
+	n := cur.ns
+	if !n.active() {
+		n.free.Wait()
+		return
+	}
+	main := n.threads[0]
+	for {
+		all := true
+		for _, t := range n.threads[1:] {
+			if !t.done {
+				all = false
+			}
+		}
+		if all {
+			return
+		}
+		n.switchFrom(main, n.next(), false)
+	}
+}
+
+func YieldAtLocks(b bool)                  {}
 func ExploreSchedules(preemptionBound int) {}
 func FixedSchedule()          {}
 func HighFirst(b bool)        {}
